@@ -2,6 +2,7 @@
 
 from __future__ import annotations
 
+from checks.c06 import gen_twin_program
 from checks.c08 import limits_config
 from simkit import enginea
 from simkit.acheck import EngineACheck
@@ -26,7 +27,12 @@ class C09(EngineACheck):
         cfg = limits_config(ch)
         cfg.features = set(cfg.features) - {"forkjoin"}  # unjoined forks may outlive run()
         cfg.task_options = [{"cache_scope": "CSE"}, {"cache_scope": "NONE"}]
-        prog = Gen(ch, cfg).generate()
+        if ch.choice(3, "program-family") == 2:
+            # twins x limits x opt-outs: nominated waiting jobs that turn out cached/collapsed
+            prog = gen_twin_program(ch)
+            out.probe("twin_family_programs")
+        else:
+            prog = Gen(ch, cfg).generate()
         res = enginea.simulate(ch, prog, step_cap=6000)
         w, rec, sched = res.world, res.rec, res.scheduler
         self.fill(out, w, prog)
